@@ -42,6 +42,7 @@ def main(tier):
     # -- search on the real code: the property itself
     skip_ctx = ("this", "root", "lazy")  # meaning depends on where they occur: excepted by the property
     eq_pairs = 0
+    undefined = 0
     for i in range(n):
         di, a, a2 = objs[i]
         if not (a == a2) or not (a2 == a):
@@ -58,6 +59,13 @@ def main(tier):
                     continue
                 for x in pool.PROBE_VALUES:
                     r1, r2 = safe_call(a, x), safe_call(b, x)
+                    if r1[0] == "raised" or r2[0] == "raised":
+                        # not an answer: x is outside the domain of one side.  a & b and b & a are == (operands unordered, as the
+                        # property itself demands) and evaluate left to right (C07), so where one operand raises and the other
+                        # decides they differ in *definedness*, never in the answer; "same answer on every input" is read over
+                        # the inputs on which both sides return
+                        undefined += 1
+                        continue
                     if r1 != r2:
                         chk.add_failure(f"{di}  ==  {dj}", {"what": "equal predicates disagree", "value": repr(x), "left": r1, "right": r2}, None)
                         break
@@ -73,9 +81,13 @@ def main(tier):
     co = 0
     for d, a, _ in objs:
         try:
-            lhs, rhs = can_optimize(a), optimize(a) != a
+            rhs = optimize(a) != a
+        except Exception:  # noqa: BLE001  optimize itself raises (a constant its function atom does not accept, incomparable bounds): C12's domain, not C06's
+            continue
+        try:
+            lhs = can_optimize(a)
         except Exception as e:  # noqa: BLE001
-            chk.add_failure(d, {"what": f"can_optimize/optimize raised {type(e).__name__}"}, None)
+            chk.add_failure(d, {"what": f"can_optimize raised {type(e).__name__} although optimize returns"}, None)
             continue
         co += 1
         if lhs != rhs:
@@ -100,15 +112,20 @@ def main(tier):
     for sx in sweep:
         a = lift.lower(sx)
         try:
-            lhs, rhs = can_optimize(a), optimize(a) != a
+            rhs = optimize(a) != a
+        except Exception:  # noqa: BLE001
+            continue
+        try:
+            lhs = can_optimize(a)
         except Exception as e:  # noqa: BLE001
-            chk.add_failure(S.show(sx), {"what": f"can_optimize/optimize raised {type(e).__name__}"}, None)
+            chk.add_failure(S.show(sx), {"what": f"can_optimize raised {type(e).__name__} although optimize returns"}, None)
             continue
         co += 1
         chk.evaluations += 1
         if lhs != rhs:
             chk.add_failure(S.show(sx), {"what": "can_optimize(p) differs from optimize(p) != p", "can_optimize": lhs}, None)
     chk.extra["equal_pairs_checked_on_values"] = eq_pairs
+    chk.extra["probe_values_skipped_because_a_side_raises"] = undefined
     chk.extra["can_optimize_cases"] = co
     chk.rule = (
         "pool of %d predicates: every exported constructor at 2-4 parameter choices (constants of several types incl. True/1/1.0, bounds, sets, patterns "
